@@ -266,7 +266,7 @@ func ruleC08StripBoth(c *Ctx) {
 		}
 	}
 	for _, s := range m.Sites {
-		if s.Call.Parent() == m.E {
+		if f := s.Call.Parent(); f == m.E || (f.Parent() == nil && c.transparent(f)) {
 			check(s.Call)
 		}
 	}
